@@ -337,6 +337,8 @@ def run_segment(case, seg_steps, model, root, magick):
     """Executes steps [(index, op)] in this (fresh) process; returns events, model, violations, counters."""
     st = Storage(root)
     events, viol, counters = [], [], {}
+    import sys
+    sys.unraisablehook = lambda *a: None  # zipfile destructors re-raise injected errors when closing; not our subject
 
     def cnt(k, n=1):
         counters[k] = counters.get(k, 0) + n
